@@ -4,7 +4,7 @@
 (* defined by the instruction-family modules, and the application of an    *)
 (* effect to the machine state.  See VmBase for the state and conventions. *)
 (***************************************************************************)
-EXTENDS VmBase, VmAlu, VmFlow, VmMem, VmCall, VmAssets, VmWide, VmContract
+EXTENDS VmBase, VmAlu, VmFlow, VmMem, VmCall, VmAssets, VmWide, VmContract, VmStorage
 
 (***************************************************************************)
 (* Dispatch                                                                *)
@@ -21,6 +21,7 @@ EffectOf(vm, w) ==
          ELSE IF n \in AssetNames THEN AssetEff(vm, n, w)
          ELSE IF n \in WideNames THEN WideEff(vm, n, w)
          ELSE IF n \in ContractNames THEN ContractEff(vm, n, w)
+         ELSE IF n \in StorageNames THEN StorageEff(vm, n, w)
          ELSE Unmodelled
 
 \* ---- gas charge applied to the register file ----
